@@ -19,6 +19,16 @@ Documentation used (help text quoted):
   --divideMultimapping "Divide multimapping reads over all targets. Requires the XA or NH tag to be set."
   -byValue "Extract the value from the supplied tag and use this as count to add"
   -contig "Run only on this chromosome"; -bedfile "... chromo, start, end to be read for fetching counts"
+  --splitFeatures "Split features by , . For example if a read has a feature Foo,Bar increase counts for both Foo and
+                  Bar" (-featureDelimiter: the separator); without the switch the value is one feature, as it stands
+  -joinedFeatureTags "... If you want a column containing the chromosome mapped to use "chrom" as feature ..."
+  -bin "Devide and floor to bin features. If bin=1000, f=1999 -> 1000." + property C10: the bin of coordinate p is
+       [k*b, (k+1)*b) with k = floor(p/b); the key gets (start, end) appended; -binTag default DS
+  property anchors: feature / sample values are looked up as a tag of the read, else (barcode index) under the tag's
+       other spelling BI <-> bi, else as an attribute of the read (mapping_quality, ...); "chrom" = the contig name
+  BED / blacklist files are half-open, 0-based intervals (UCSC BED format; the code comment at the blacklist test says
+       the same): a read [s, e) lies in [bs, be) iff bs <= s and e <= be, and two intervals that only touch do not overlap
+  secondary / supplementary alignments: no listed filter looks at these bits, so they count like any other record
   property: mapped, not qc-failed; "half per mate unless fragment division is disabled or one mate is selected";
   "multimapping division splits that weight over the reported hits"; "by-value counting adds the tag's numeric value".
 
@@ -28,6 +38,8 @@ Where these texts are silent or ambiguous the oracle answers AMBIGUOUS and the c
   * read without mp tag, or with a value other than unique / bad, under --filterMP,
   * XA and NH both present and disagreeing about the number of hits under --divideMultimapping,
   * a read touching a blacklist / BED region only partly (only fully inside / fully outside are generated).
+With --splitFeatures every piece is incremented; the help does not say whether by the read's weight or by a share of
+it, both are accepted.  Empty pieces (a value starting / ending with the delimiter) are not generated.
 For -byValue combined with a weight that would not be 1 (mate halves, multimapping division) both the literal value
 and value x weight are accepted (the help says the value is "the count to add" and is silent on the interaction).
 """
@@ -124,16 +136,56 @@ def weights(rd, opt):
     return {w}
 
 
+BI_VALUE, bi_VALUE = 7, 8            # gen/c11_reads.py: value of the BI / bi tag where the read carries it
+BIN = 100
+
+# feature mode -> (joined?, the tags named on the command line, by-value tag, bin size); gen/c11_reads.FEATURE_ARGS
+# is the same table turned into arguments (the check asserts they agree)
+MODES = {
+    'joined': (True, ('XT', 'chrom'), None, None),
+    'single': (False, ('XT', 'chrom'), None, None),
+    'joined+byValue': (True, ('XT', 'chrom'), 'RC', None),
+    'joined1': (True, ('XT',), None, None),
+    'joined+lookup': (True, ('BI', 'bi', 'mapping_quality', 'XT'), None, None),
+    'single+lookup': (False, ('bi', 'mapping_quality'), None, None),
+    'joined+bin': (True, ('XT',), None, BIN),
+}
+
+
+def feature_value(rd, tag, contig_names):
+    """the read's own value of one feature / sample tag, as the string the table is keyed by"""
+    if tag == 'chrom':
+        return contig_names[rd['contig']]
+    if tag == 'BI':          # own spelling first, else the other one
+        return str(BI_VALUE if rd['bi'] in ('BI', 'both') else bi_VALUE)
+    if tag == 'bi':
+        return str(bi_VALUE if rd['bi'] in ('bi', 'both') else BI_VALUE)
+    if tag == 'mapping_quality':
+        return str(rd['mapq'])
+    return str(rd[tag])
+
+
 def keys(rd, opt, contig_names):
-    """The table cells (feature keys, as tuples of strings) a counted read contributes to."""
-    xt, chrom = str(rd['XT']), contig_names[rd['contig']]
-    if opt['features'] == 'single':          # -featureTags XT,chrom : one-dimensional, one row per tag value
-        return [(xt,), (chrom,)]
-    return [(xt, chrom)]                      # -joinedFeatureTags XT,chrom (+ -byValue RC)
+    """The table cells (feature keys, as tuples) a counted read contributes to."""
+    joined, tags, _by, bin_ = MODES[opt['features']]
+    vals = [feature_value(rd, t, contig_names) for t in tags]
+    if opt.get('splitFeatures'):
+        pieces = [v.split(opt['featureDelimiter']) for v in vals]
+    else:
+        pieces = [[v] for v in vals]
+    if not joined:                           # -featureTags: one-dimensional, one row per tag value
+        return [(p,) for ps in pieces for p in ps]
+    out = [()]
+    for ps in pieces:                        # -joinedFeatureTags: one row per combination
+        out = [k + (p,) for k in out for p in ps]
+    if bin_ is not None:
+        start = (rd['DS'] // bin_) * bin_
+        out = [k + (start, start + bin_) for k in out]
+    return out
 
 
-def sample(rd, sample_tags=('SM',)):
-    return tuple(rd[t] for t in sample_tags)
+def sample(rd, sample_tags=('SM',), contig_names=None):
+    return tuple((contig_names[rd['contig']] if t == 'chrom' else rd[t]) for t in sample_tags)
 
 
 def expected_read(rd, opt, contig_names, blacklist=None, sample_tags=('SM',)):
@@ -146,8 +198,14 @@ def expected_read(rd, opt, contig_names, blacklist=None, sample_tags=('SM',)):
     w = weights(rd, opt)
     if w == AMBIGUOUS:
         return AMBIGUOUS
-    sm = sample(rd, sample_tags)
-    return {(sm, k): set(w) for k in keys(rd, opt, contig_names)}
+    sm = sample(rd, sample_tags, contig_names)
+    ks = keys(rd, opt, contig_names)
+    if opt.get('splitFeatures'):
+        # "increase counts for both Foo and Bar": by the weight, or by an equal share of it (help is silent)
+        ns = {len(ks)} | {len(feature_value(rd, t, contig_names).split(opt['featureDelimiter']))
+                          for t in MODES[opt['features']][1]}
+        w = set(w) | {x / n for x in w for n in ns}
+    return {(sm, k): set(w) for k in ks}
 
 
 def expected_table(reads, opt, contig_names, blacklist=None, sample_tags=('SM',), contig=None, bed=None):
@@ -174,11 +232,11 @@ def expected_table(reads, opt, contig_names, blacklist=None, sample_tags=('SM',)
                 elif s < be and bs < e:
                     partial = True
             if partial:
-                amb.add(sample(rd, sample_tags))
+                amb.add(sample(rd, sample_tags, contig_names))
                 continue
         ex = expected_read(rd, opt, contig_names, blacklist, sample_tags)
         if ex == AMBIGUOUS:
-            amb.add(sample(rd, sample_tags))
+            amb.add(sample(rd, sample_tags, contig_names))
             continue
         for (sm, k), ws in ex.items():
             for suf in suffixes:
